@@ -761,7 +761,8 @@ impl<T: ArrayValue> Array<T> {
             let mut true_count = 0;
             let mut sum: f64 = 0.0;
             for &n in counts.iter() {
-                sum += n;
+                // Negative counts keep nothing, so they take nothing off the new length
+                sum += n.max(0.0);
                 match n.max(0.0) as usize {
                     0 => {}
                     1 => true_count += 1,
